@@ -3461,3 +3461,13 @@ mod tests {
         assert!(matches!(err, Error::IoError(..)));
     }
 }
+
+/// Verification hooks (H0): read-only observation points used by the /verif harness.
+/// Compiled only with `--cfg egglog_verif`; with the cfg off this adds nothing.
+#[cfg(egglog_verif)]
+impl EGraph {
+    /// Canonical representative of an eq-sort value according to the union-find.
+    pub fn verif_canon_id(&self, v: Value) -> Value {
+        self.backend.get_canon_repr(v, ColumnTy::Id)
+    }
+}
